@@ -202,13 +202,6 @@ def oracle(case, obs):
             if abs(p[0] * p[0] + p[1] * p[1] - 1) > 1e-12:
                 out.append(("border/circle", "border vertex %d at %s is not on the unit circle" % (v, p)))
                 break
-        # equally spaced: consecutive chord lengths all 2 sin(pi/n)
-        ch = 2 * math.sin(math.pi / n)
-        for i in range(n):
-            a, b = P[i], P[(i + 1) % n]
-            if abs(math.hypot(a[0] - b[0], a[1] - b[1]) - ch) > 1e-9:
-                out.append(("border/circle", "consecutive border vertices %d,%d are not 1/%d of a turn apart" % (cyc[i], cyc[(i + 1) % n], n)))
-                break
     elif case["mode"] == "square":
         for v, p in zip(cyc, P):
             if not on_square(p):
